@@ -1,18 +1,31 @@
 """C16 -- pointing at a name finds the symbol that carries it (engine K)."""
 import ksupport
+import mir
 import native
+import travcheck as tc
 from common import src_line
 
 LEVEL = 'model_checking'
 SPECS = [
     ('c16::c16_range_contains', 'range_contains(r, p) <=> start <=lex p <=lex end for all eight usize values', 'quick', ['c16']),
-    ('c16::c16_lookup', 'find_symbol_at_line_col on a document tree (package, import, interface, method with List<Foo> return and Bar[] argument): every (line<=5, col<=45) x 3 levels', 'quick', ['c16']),
 ]
 
 
 def check(run):
     run.functions += ['traverse::range_contains (%s)' % src_line('src/traverse.rs', 'fn range_contains'), 'traverse::find_symbol_at_line_col -> find_symbol', 'Symbol::get_range']
-    run.bounds += ['range_contains: all usize; lookup: one document tree with realistic name ranges, all positions on lines 1-5, columns 0-45, three filter levels; unwind 3']
+    run.bounds += ['range_contains: all usize (Kani); find_symbol: trees with imports/members/arguments <= 2, all levels (engine T)']
     run.outside += ['agreement of name ranges with the source text (C04)', 'other tree shapes (the lookup composes range_contains with the traversal order decided in C15)']
     run.extra['explanation'] = 'Kani/CBMC: containment over all integers; lookup = first symbol in traversal order containing the position, for every position of a document tree; native sweep (90 lookups on generated documents).'
     ksupport.decide(run, 'C16', SPECS, {'c16': native.sweep_c16})
+    # lookup = find_symbol with the containment predicate; find_symbol = first match in traversal order (engine T)
+    import c15
+    c15.check(run, which=('step_symbols', 'outer_symbols', 'find'), native_bad=native.sweep_c16()[1])
+    try:
+        S = tc.Setup()
+        ok, detail = tc.lookup_closure(S)
+        if ok:
+            run.holds('find_symbol_at_line_col(ast, level, p) = find_symbol(ast, level, |s| range_contains(s.get_range(), p))', 'T', bound='MIR of find_symbol_at_line_col and its closure')
+        else:
+            run.violated('lookup is find_symbol with the containment predicate on the name range', 'T', 'lookup-closure', {'detail': detail}, True)
+    except mir.Unsupported as e:
+        run.inconclusive('lookup closure', 'T', str(e))
